@@ -305,6 +305,7 @@ def sock_env(eng):
     def write_bytes(it_, raw):
         def th():
             state["written"] = state["written"] + Rope.of(raw)
+            state["writes"] = state.get("writes", 0) + 1
         return Coro(th, "write_bytes")
 
     def read_bytes(it_, n):
@@ -340,6 +341,12 @@ def h_roundtrip_multipart(n_frames):
         eng.oblige(f"{U}/send.no-exception", k1 == "ok")
         if k1 != "ok":
             return
+        # write_bytes awaits the transport's drain(): it is the only place where send_multipart can be suspended.  Several
+        # coroutines send on one socket (iopub: stdout relay, status broadcasts, results), so the frames of one message must
+        # reach the transport in ONE write - otherwise another sender's frames can land between them
+        ob = eng.oblige(f"{U}/send.whole-message-in-one-write", state.get("writes", 0) == 1)
+        if ob.status == "refuted":
+            ob.witness = {"signature": "message-split-over-several-writes", "frames": n_frames, "writes": state.get("writes", 0)}
         # the peer's stream is what was written, plus whatever follows (next message)
         tail, _ = blob("following_bytes")
         state["stream"] = state["written"] + tail
@@ -638,6 +645,8 @@ def h_shell_handler(msg_type):
 
 def replay_framing(wj):
     from replay.native import run_native
+    if wj.get("signature") == "message-split-over-several-writes":
+        return run_native("c19_two_senders", wj, timeout=120)
     if wj.get("what") == "parent":
         return run_native("c19_interleaved_parent", wj, timeout=120)
     return run_native("c19_framing_bounded", {"quick": True}, timeout=600)
